@@ -61,6 +61,9 @@ CONFIG_SPACE = [
     ("creds", ["plain", "printable"]),
     # the process's logging configuration (ofxget -vv, or a host application's): what is composed must not depend on it
     ("loglevel", [None, "DEBUG"]),
+    # how the configuration reaches the client: constructor arguments, or plain attribute assignment (what the constructor
+    # itself does) on a client built for another institution that has already composed a request
+    ("configured", ["constructor", "assignment"]),
 ]
 
 
@@ -120,6 +123,17 @@ def make_client(cfg, seed):
         kw["appid"], kw["appver"] = cfg["app"]
     if cfg["language"]:
         kw["language"] = cfg["language"]
+    if cfg.get("configured") == "assignment" and (cfg["close"] or cfg["version"] < 200):
+        cl = OFXClient("http://other.example/ofx", userid="someone-else", clientuid="OTHER-CLIENTUID", org="OTHERORG", fid="OTHERFID", version=103 if cfg["version"] >= 200 else 203,
+                       appid="OTHER", appver="0", language="SPA", prettyprint=not cfg["pretty"], close_elements=True, bankid="000000000", brokerid="other.example")
+        with warnings.catch_warnings():
+            warnings.simplefilter("ignore")
+            cl.request_profile(dryrun=True).read()
+            cl.request_statements("other-password", dryrun=True).read()
+        cl.url = URL
+        for attr in ("userid", "clientuid", "org", "fid", "version", "appid", "appver", "language", "prettyprint", "close_elements", "bankid", "brokerid"):
+            setattr(cl, attr, kw.get(attr, getattr(OFXClient, attr)))
+        return cl, user, pw
     return OFXClient(URL, **kw), user, pw
 
 
@@ -414,9 +428,11 @@ def _run_config(t, cfg, seed, seqs, extras):
         return
     cl, user, pw = make_client(cfg, seed)
     for seqno, (seq, variant) in enumerate(seqs):
-        specs = [make_request(k, i, variant) for i, k in enumerate(seq)]
+        specs = []
+        for i, k in enumerate(seq):
+            specs.append(dict(specs[0]) if k == "DUP" else make_request(k, i, variant))  # DUP: a request equal to the first one
         case = {"cfg": cfg, "call": "statements", "seq": list(seq), "variant": variant}
-        kinds = "+".join(sorted(set(seq))) or "empty"
+        kinds = "+".join(sorted(set(k for k in seq if k != "DUP"))) + ("+repeated" if "DUP" in seq else "") or "empty"
         t0 = now_ms()
         try:
             with warnings.catch_warnings():
@@ -543,6 +559,14 @@ def history_work(chunk):
     return t
 
 
+def dup_seqs():
+    """request lists holding two equal requests (same account, dates and flags), adjacent and around another kind"""
+    out = []
+    for i, k in enumerate(KINDS):
+        out += [(k, "DUP"), (k, KINDS[(i + 1) % len(KINDS)], "DUP"), (k, "DUP", "DUP")]
+    return out
+
+
 def all_seqs(nmax):
     out = []
     for n in range(0, nmax + 1):
@@ -570,7 +594,7 @@ EXTRAS = [("accounts", DATES[1]), ("accounts", DATES[2]), ("profile",), ("tax109
 
 
 def run(ctx):
-    seqs = all_seqs(3)
+    seqs = all_seqs(3) + dup_seqs()
     base_seqs = [(s, (i + ctx.seed) % 400) for i, s in enumerate(seqs)]
     # single-request lists: every flag/date variant
     single = []
@@ -579,6 +603,10 @@ def run(ctx):
             single.append(((k,), v))
     jobs = []
     cfgs = list(configs(2 if ctx.quick else None))
+    if ctx.thorough:
+        # full product of the request-shaping dimensions; the logging dimension stays within 3 deviations of the default
+        near = {repr(sorted(c.items(), key=lambda kv: kv[0])) for c in configs(3)}
+        cfgs = [c for c in cfgs if not c.get("loglevel") or repr(sorted(c.items(), key=lambda kv: kv[0])) in near]
     for i, cfg in enumerate(cfgs):
         if ctx.quick:
             sq = base_seqs if i < 40 else base_seqs[(i % 4)::4]
@@ -608,9 +636,9 @@ def run(ctx):
     cov = {
         "evaluations": tally.counts.get("evaluations", 0),
         "distinct_nontrivial": tally.counts.get("compositions", 0),
-        "rule": ("client configurations within <=2 deviations of the default" if ctx.quick else "full product of client configurations") +
+        "rule": ("client configurations within <=2 deviations of the default" if ctx.quick else "full product of client configurations (logging at DEBUG within 3 deviations of the default)") +
         " over wire form (v2/v1 x pretty x end tags, one dimension) x version within the major version x FI {none, ORG, ORG+FID with markup chars} x CLIENTUID x app id/version x language x logging at DEBUG x credentials {plain, all 95 printable "
-        "ASCII characters} x request lists: all 156 sequences of length 0..3 over the five statement request kinds (account ids with & < > quotes, 5 date options incl. -5:30, +14:00, "
+        "ASCII characters} x configured through the constructor or by assignment on a used client x request lists: all 156 sequences of length 0..3 over the five statement request kinds + 15 lists holding equal requests (account ids with & < > quotes, 5 date options incl. -5:30, +14:00, "
         "-0:30 and sub-ms, flags) + every single-request flag/date variant (400 per kind, spread over configurations) + account-info, profile and 4 tax requests; all dryrun; "
         "each composition read by the strict reference reader and by the library, both compared with the expected request; + call histories: on one client per wire form every sequence of <= "
         + ("3" if ctx.thorough else "2") + " earlier calls out of 7 (per-call version/format overrides that succeed, are refused locally or fail on the network; a request that cannot be composed; "
